@@ -411,8 +411,8 @@ fn handle_discover(
 
                 Ok(dhcppkt::Dhcp {
                     op: dhcppkt::OP_BOOTREPLY,
-                    htype: dhcppkt::HWTYPE_ETHERNET,
-                    hlen: 6,
+                    htype: req.pkt.htype,
+                    hlen: req.pkt.hlen,
                     hops: 0,
                     xid: req.pkt.xid,
                     secs: 0,
@@ -489,8 +489,8 @@ fn handle_request(
                 );
                 Ok(dhcppkt::Dhcp {
                     op: dhcppkt::OP_BOOTREPLY,
-                    htype: dhcppkt::HWTYPE_ETHERNET,
-                    hlen: 6,
+                    htype: req.pkt.htype,
+                    hlen: req.pkt.hlen,
                     hops: 0,
                     xid: req.pkt.xid,
                     secs: 0,
